@@ -782,9 +782,9 @@ fn run(opts: &Opts, acc: &mut Acc) {
     acc.mark_exhaustive("ternary", "15^3 slot fillings of one ?:, else-nested chains, 196 operator pairs in each slot");
 
     // random trees
-    let n = opts.tier.pick(10_000, 300_000);
+    let n = opts.tier.pick(150_000, 2_000_000);
     random_genomes(acc, opts, "trees", n, 160, |gn, a| check_tree(gn, "trees", a));
-    let n = opts.tier.pick(10_000, 300_000);
+    let n = opts.tier.pick(150_000, 400_000);
     random_genomes(acc, opts, "eval", n, 96, |gn, a| check_eval(gn, "eval", a));
 }
 
